@@ -116,6 +116,15 @@ def fields_layer(V, tier):
         for c in crashes:
             V.violation("setter-built %s crash %s" % (c["field"], c["sig"]), "%s: sanitizer report / abnormal exit while serializing or parsing an object built with the setters" % c["field"], c)
         for r in recs:
+            if r.get("combination"):
+                st["combinations"] = st.get("combinations", 0) + r["tried"]
+                st.setdefault("classes_with_combinations", set()).add(r["cls"])
+                for f in r["fails"]:
+                    kind = "output-not-wellformed" if "not well-formed" in f["problem"] else "own-output-refused" if "refused" in f["problem"] else "serializes-differently" if "serializes differently" in f["problem"] else "value-lost"
+                    V.violation("setter-built combination %s%s %s" % (r["cls"], "." + f["lost"] if f["lost"] else "", kind),
+                                "%s: several fields set at once (each to a value that survives when set alone): %s" % (r["cls"], f["problem"][:200]),
+                                {"class": r["cls"], "state": f["state"], "fields": f["fields"], "values": f["values"], "problem": f["problem"], "xml": f["xml"]})
+                continue
             k = "%s.%s" % (r["cls"], r["field"])
             if "excluded" in r:
                 st["excluded"][k] = r["excluded"]
@@ -174,7 +183,7 @@ def main(tier, replay=None):
     if fst:
         evals += fst["values"]
     cov = {"evaluations": evals, "distinct_nontrivial": tot[4] + tot[5] + tot[1] + (fst["live_states"] if fst else 0),
-           "setter_built": None if not fst else {"fields": len(fst["fields"]), "fields_live_in_some_state": len(fst["live_fields"]), "live_field_states": fst["live_states"], "values_round_tripped": fst["values"],
+           "setter_built": None if not fst else {"fields": len(fst["fields"]), "fields_live_in_some_state": len(fst["live_fields"]), "live_field_states": fst["live_states"], "values_round_tripped": fst["values"], "combinations_round_tripped": fst.get("combinations", 0), "classes_with_combinations": len(fst.get("classes_with_combinations", ())),
                                                   "dormant_fields_not_judged": fst["dormant"], "excluded": fst["excluded"]},
            "rule": "layer 1: objects built with the library's setters: for every (class, setter, getter) of harness/fields_gen.h + fields_hand.h and every object state in which a benign probe value survives serialize->parse->getter, "
                    "boundary and random values of the setter's C++ parameter type (integers at all width boundaries, doubles with 12+ significant digits, hostile strings, date-times with ms and offsets, URLs, lists) must survive too; "
